@@ -50,7 +50,7 @@ def register_then_snapshot(ctx):
     regs = _registrations(f)
     snaps = _snapshot_sends(f)
     if not regs or not snaps:
-        raise AnchorMissing('registration or snapshot send_reply not found in handle_activate')
+        raise AnchorMissing('registration or snapshot send_reply not found in handle_activate', violation='frappy.protocol.dispatcher.Dispatcher.handle_activate:registration and snapshot present')
     reg_ids = [i for c in regs for i in cfg.node_of(c)]
     for c in snaps:
         ok = all(cfg.dominates(reg_ids, i) for i in cfg.node_of(c))
@@ -178,7 +178,7 @@ def scope_check_before_registration(ctx):
     regs = [i for c in _registrations(f) if call_attr(c) == 'subscribe' for i in cfg.node_of(c)]
     raises = [n for n in body_walk(f.node) if isinstance(n, ast.Raise) and n.exc is not None and 'NoSuch' in src(n.exc)]
     if not raises:
-        raise AnchorMissing('no NoSuch... refusal in handle_activate')
+        raise AnchorMissing('no NoSuch... refusal in handle_activate', violation='frappy.protocol.dispatcher.Dispatcher.handle_activate:scope refusal present')
     for r in raises:
         ok = not (cfg.reach(regs) & set(cfg.ids(r)))
         ctx.check(ok, f'{f.qualname}:refusal before registration', r, 'the refusal can not happen after subscribe',
